@@ -9,6 +9,8 @@ struct HistCase
     uint8_t stream{0};
     std::vector<EncCase> history;
     EncCase last;
+    uint8_t reuseObjects{0};  // 1: every call encodes from the same Packet objects, refilled in place before each call (a sender that
+                              // keeps its packet objects): what an encoder remembers about "the packet at this address" must not matter
     uint32_t bulkFrames{0};  // > 0: the history starts with one call of that many one-byte packets at max = 25 (one frame each), which
                              // brings the 16-bit sequence counter - the one state that legitimately survives - next to its wrap
     void io(Ar& a)
@@ -18,6 +20,7 @@ struct HistCase
         a.vec("history", history);
         last.io(a);
         a.optionalNum("bulkFrames", bulkFrames);
+        a.optionalNum("reuseObjects", reuseObjects);
     }
 };
 
@@ -39,9 +42,22 @@ static Verdict runCase(const HistCase& c, Info& info)
         a.encode(bulk.begin(), bulk.end(), lib::DataContext{0, 25});
         info.tag("history_brings_counter_next_to_wrap");
     }
+    // object pool for reuseObjects: storage reserved once, so the packets of every call sit at the same addresses
+    std::vector<lib::Packet> pool;
+    size_t poolCap = c.last.packets.size();
+    for (const auto& h : c.history)
+        poolCap = std::max(poolCap, h.packets.size());
+    pool.reserve(poolCap + 1);
+    auto fromPool = [&](const EncCase& e) -> std::vector<lib::Packet>& {
+        pool.resize(e.packets.size());
+        for (size_t i = 0; i < e.packets.size(); ++i)
+            fillPacket(pool[i], e.packets[i], e.version);
+        return pool;
+    };
     for (const auto& h : c.history)
     {
-        auto batch = buildBatch(h);
+        auto owned = c.reuseObjects ? std::vector<lib::Packet>() : buildBatch(h);
+        std::vector<lib::Packet>& batch = c.reuseObjects ? fromPool(h) : owned;
         if (h.abortAfter >= 0)
         {
             if (encodeAborted(a, batch, lib::DataContext{h.minB, h.maxB}, h.abortAfter))
@@ -50,7 +66,10 @@ static Verdict runCase(const HistCase& c, Info& info)
         else
             encodeVia(a, batch, lib::DataContext{h.minB, h.maxB}, h.overload);
     }
-    auto batch = buildBatch(c.last);
+    auto ownedLast = c.reuseObjects ? std::vector<lib::Packet>() : buildBatch(c.last);
+    std::vector<lib::Packet>& batch = c.reuseObjects ? fromPool(c.last) : ownedLast;
+    if (c.reuseObjects)
+        info.tag("packet_objects_reused_across_calls");
     auto fa = encodeVia(a, batch, lib::DataContext{c.last.minB, c.last.maxB}, c.last.overload);
     auto fb = encodeVia(b, batch, lib::DataContext{c.last.minB, c.last.maxB}, c.last.overload);
     VF_CHECK(fa.size() == fb.size(), "encoder with history produced " << fa.size() << " frames, fresh encoder " << fb.size());
@@ -121,6 +140,7 @@ static rc::Gen<HistCase> genCase(int tier)
             if (!c.history.back().packets.empty() && *range<int>(0, 5) == 0)
                 c.history.back().abortAfter = *range<int32_t>(0, static_cast<int32_t>(c.history.back().packets.size()) - 1);
         }
+        c.reuseObjects = *range<uint8_t>(0, 1);
         // one case in twelve: the counter stands a few frames before 65535 / 65536 (or a multiple) when the final batch starts
         if (*range<int>(0, 11) == 0)
         {
